@@ -8,6 +8,7 @@ import (
 	"go/token"
 	"go/types"
 	"sort"
+	"strings"
 
 	"golang.org/x/tools/go/ssa"
 )
@@ -767,6 +768,14 @@ func ruleFormatCursors(c *Ctx) {
 		for changed {
 			changed = false
 			allInstrs(fn, func(in ssa.Instruction) {
+				// a counter advanced twice in a row: the intermediate sum belongs to the family too
+				if b0, ok := in.(*ssa.BinOp); ok && b0.Op == token.ADD && fam[b0] == "" && fam[b0.X] != "" {
+					if _, isLen := isBuiltinCall(b0.Y, "len"); isLen {
+						fam[b0] = fam[b0.X]
+						changed = true
+					}
+					return
+				}
 				ph, ok := in.(*ssa.Phi)
 				if !ok || !isIntType(ph.Type()) || fam[ph] != "" {
 					return
@@ -793,7 +802,122 @@ func ruleFormatCursors(c *Ctx) {
 		if len(fam) == 0 {
 			continue
 		}
+		// what is printed: a span helper (int, int) -> string is handed two positions of ONE side; a formatted command
+		// line that names positions names the left side first and the right side last
+		{
+			var famOf func(v ssa.Value, d int) string
+			famOf = func(v ssa.Value, d int) string {
+				if d > 4 {
+					return ""
+				}
+				if f := fam[v]; f != "" {
+					return f
+				}
+				switch x := v.(type) {
+				case *ssa.BinOp:
+					if x.Op == token.ADD || x.Op == token.SUB {
+						return famOf(x.X, d+1)
+					}
+				case *ssa.MakeInterface:
+					return famOf(x.X, d+1)
+				case *ssa.Call:
+					if cal := staticCallee(&x.Call); cal != nil && cal.Pkg == fn.Pkg && len(x.Call.Args) == 2 && isIntType(x.Call.Args[0].Type()) && isIntType(x.Call.Args[1].Type()) {
+						return famOf(x.Call.Args[0], d+1)
+					}
+				}
+				return ""
+			}
+			k := 0
+			allInstrs(fn, func(in ssa.Instruction) {
+				call, ok := in.(*ssa.Call)
+				if !ok {
+					return
+				}
+				if cal := staticCallee(&call.Call); cal != nil && cal.Pkg == fn.Pkg && len(call.Call.Args) == 2 && isIntType(call.Call.Args[0].Type()) && isIntType(call.Call.Args[1].Type()) && isStringType(call.Type()) {
+					a, b := famOf(call.Call.Args[0], 0), famOf(call.Call.Args[1], 0)
+					if a != "" && b != "" {
+						k++
+						c.sawFn(fnName(fn))
+						c.judge(a == b, "R-CURSOR-SIDE", fmt.Sprintf("%s:span %s(…) #%d", fnName(fn), cal.Name(), k), call.Pos(), "both ends of the span come from one side's counter", fmt.Sprintf("the two ends handed to %s come from the %s and the %s line counter: the span printed mixes the two files' line numbers", cal.Name(), map[string]string{"L": "left", "R": "right"}[a], map[string]string{"L": "left", "R": "right"}[b]))
+					}
+					return
+				}
+				sc := call.Call.StaticCallee()
+				if sc == nil || sc.Pkg == nil || sc.Pkg.Pkg.Path() != "fmt" || sc.Name() != "Fprintf" || len(call.Call.Args) < 3 {
+					return
+				}
+				// the variadic operands
+				sl, ok := call.Call.Args[2].(*ssa.Slice)
+				if !ok {
+					return
+				}
+				al, ok := sl.X.(*ssa.Alloc)
+				if !ok {
+					return
+				}
+				type slot struct {
+					i   int64
+					fam string
+				}
+				var slots []slot
+				for _, r := range referrersOf(al) {
+					ia, ok := r.(*ssa.IndexAddr)
+					if !ok {
+						continue
+					}
+					idx, _ := constInt(ia.Index)
+					for _, r2 := range referrersOf(ia) {
+						if st, ok := r2.(*ssa.Store); ok && st.Addr == ssa.Value(ia) {
+							if f := famOf(st.Val, 0); f != "" {
+								slots = append(slots, slot{idx, f})
+							}
+						}
+					}
+				}
+				if len(slots) < 2 {
+					return
+				}
+				sort.Slice(slots, func(i, j int) bool { return slots[i].i < slots[j].i })
+				k++
+				var seq []string
+				for _, sl := range slots {
+					seq = append(seq, sl.fam)
+				}
+				c.sawFn(fnName(fn))
+				c.judge(slots[0].fam == "L" && slots[len(slots)-1].fam == "R", "R-CURSOR-SIDE", fmt.Sprintf("%s:command line #%d names both sides", fnName(fn), k), call.Pos(), "left position first, right position last", fmt.Sprintf("the positions printed on this line come from the counters [%s]: a change command names the left file's lines first and the right file's last", strings.Join(seq, " ")))
+			})
+		}
 		n := 0
+		// per switch arm (block) and opcode known there: which counter was advanced by which span
+		type adv struct{ fam, fld string }
+		perBlock := map[*ssa.BasicBlock][]adv{}
+		blockOp := map[*ssa.BasicBlock]int64{}
+		blockPos := map[*ssa.BasicBlock]token.Pos{}
+		defer func(fn *ssa.Function) {
+			want := map[int64][]string{'-': {"L+X"}, '+': {"R+Y"}, '!': {"L+X", "R+Y"}, '=': {"L+X", "R+X"}}
+			k := 0
+			var bs []*ssa.BasicBlock
+			for b := range perBlock {
+				bs = append(bs, b)
+			}
+			sort.Slice(bs, func(i, j int) bool { return bs[i].Index < bs[j].Index })
+			for _, b := range bs {
+				op, known := blockOp[b]
+				if !known {
+					continue
+				}
+				var got []string
+				for _, a := range perBlock[b] {
+					got = append(got, a.fam+"+"+a.fld)
+				}
+				sort.Strings(got)
+				w := append([]string{}, want[op]...)
+				sort.Strings(w)
+				k++
+				c.sawFn(fnName(fn))
+				c.judge(strings.Join(got, ",") == strings.Join(w, ","), "R-CURSOR-SIDE", fmt.Sprintf("%s:%s arm advances #%d", fnName(fn), opNames[op], k), blockPos[b], "advances "+strings.Join(w, ", "), fmt.Sprintf("in the arm for %s the line counters are advanced as [%s] (L/R = left/right counter, X/Y = the edit's spans); an edit of this kind consumes [%s]: a counter is left behind, advanced twice, or advanced by a span this kind of edit does not have", opNames[op], strings.Join(got, ", "), strings.Join(w, ", ")))
+			}
+		}(fn)
 		allInstrs(fn, func(in ssa.Instruction) {
 			bo, ok := in.(*ssa.BinOp)
 			if !ok || bo.Op != token.ADD || fam[bo.X] == "" {
@@ -806,6 +930,28 @@ func ruleFormatCursors(c *Ctx) {
 			eb, f := loadedField(ln.Call.Args[0])
 			if f == nil || (f.Name() != "X" && f.Name() != "Y") {
 				return
+			}
+			{
+				fl := false
+				for _, r := range referrersOf(bo) {
+					if ph, ok := r.(*ssa.Phi); ok && fam[ph] == fam[bo.X] {
+						fl = true
+					}
+					if b2, ok := r.(*ssa.BinOp); ok && b2.Op == token.ADD && b2.X == ssa.Value(bo) && fam[b2] == fam[bo.X] {
+						fl = true
+					}
+				}
+				if fl && opF != nil {
+					perBlock[bo.Block()] = append(perBlock[bo.Block()], adv{fam[bo.X], f.Name()})
+					blockPos[bo.Block()] = bo.Pos()
+					for _, cm := range cmpsAt(bo.Block()) {
+						if b2, f2 := loadedField(cm.X); f2 != nil && sameField(f2, opF) && sym(b2) == sym(eb) && cm.Op == token.EQL {
+							if kk, ok := constInt(cm.Y); ok {
+								blockOp[bo.Block()] = kk
+							}
+						}
+					}
+				}
 			}
 			// only advances that flow back into the counter (not line numbers computed for printing)
 			flows := false
